@@ -30,14 +30,17 @@ class BlockInfo:
             setattr(self, k, kw.get(k))
 
 
-def gen_state(r, path, suffix, name_prefix, affects_fn=None, layouts=("own", "own", "own", "multi"), max_blocks=6, eol=None):
+def gen_state(r, path, suffix, name_prefix, affects_fn=None, layouts=("own", "own", "own", "multi"), max_blocks=6, eol=None,
+              dup_rate=0.0):
     """A file plus per-line identities: returns (FileState, line ids). Every line gets a unique id so that
     the same block can be located in the edited state."""
     lang = langs.SUFFIX_LANG[suffix]
     counter = [0]
 
     def attrs(idx):
-        a = [("name", "%s%d" % (name_prefix, idx))]
+        # duplicate names: a later block may reuse the name of an earlier one
+        k = idx if (idx == 0 or r.random() >= dup_rate) else r.randrange(idx)
+        a = [("name", "%s%d" % (name_prefix, k))]
         if affects_fn:
             v = affects_fn(idx)
             if v:
